@@ -85,4 +85,158 @@ theorem foldl_gather (k n : Nat) : ∀ (brs : List (List Int)) (col : List Rat),
       refine stepCol_frame k col b0 (hl ▸ hb0.2.1) hb0.2.2 _ fun m hm => ?_
       exact hne (hb0.2.1 m (mid_sub b0 m hm)).1 ((hgs b hbs).2.1 x hx).1 (fun h => (hp.1 b hbs).1 m hm (h ▸ hx))
 
+/-! ## the branches of a tree: distinct rows, interiors that meet no other branch -/
+
+-- a node is the child end of an edge (and the root of the subtree) at most as often as it is a node
+mutual
+theorem es_count (a : Int) : ∀ r : Rose, ((edges r).map Prod.snd).count a + [r.id].count a ≤ r.ids.count a
+  | .node i ks => by
+    have := esL_count a ks
+    have e : (ks.map (fun k => (i, k.id))).map Prod.snd = ks.map Rose.id := by simp [Function.comp_def]
+    have hid : (Rose.node i ks).id = i := rfl
+    simp only [edges, Rose.ids, hid, List.map_append, e, List.count_append, List.count_cons, List.count_nil]
+    omega
+theorem esL_count (a : Int) : ∀ ks : List Rose, (ks.map Rose.id).count a + ((edgesL ks).map Prod.snd).count a ≤ (idsL ks).count a
+  | [] => by simp [edgesL, idsL]
+  | r :: rs => by
+    have h1 := es_count a r
+    have h2 := esL_count a rs
+    simp only [edgesL, idsL, List.map_cons, List.map_append, List.count_append, List.count_cons, List.count_nil] at h1 ⊢
+    omega
+end
+
+theorem pairs_snd : ∀ b : List Int, (pairs b).map Prod.snd = b.tail
+  | [] => rfl
+  | [_] => rfl
+  | a :: b :: t => by simp [pairs, pairs_snd (b :: t)]
+
+/-- every node is a non-first member of at most one branch, at most once; the root of none -/
+theorem tails_nodup (r : Rose) (hD : r.ids.Nodup) :
+    ((branchesOf r).flatMap List.tail).Nodup ∧ r.id ∉ (branchesOf r).flatMap List.tail := by
+  have hp := (branches_partition_edges r).map Prod.snd
+  have e : ((branchesOf r).flatMap pairs).map Prod.snd = (branchesOf r).flatMap List.tail := by
+    simp [List.map_flatMap, pairs_snd]
+  rw [e] at hp
+  have hc : ∀ a, ((edges r).map Prod.snd).count a + [r.id].count a ≤ 1 := fun a =>
+    le_trans (es_count a r) (List.nodup_iff_count_le_one.1 hD a)
+  refine ⟨hp.nodup_iff.2 (List.nodup_iff_count_le_one.2 fun a => by have := hc a; omega), fun hm => ?_⟩
+  have h1 := hc r.id
+  have h2 : 0 < ((edges r).map Prod.snd).count r.id := List.count_pos_iff.2 (hp.mem_iff.1 hm)
+  simp at h1
+  omega
+
+/-- no (closed or open) branch of a subtree with distinct ids lists a node twice -/
+theorem bv_nodup (r : Rose) : r.ids.Nodup → (∀ b ∈ (branchVal r).1, b.Nodup) ∧ (branchVal r).2.Nodup := by
+  induction r using rose_ind with
+  | h i ks ih =>
+    intro hD
+    simp only [Rose.ids, List.nodup_cons, idsL_eq, List.mem_flatMap, not_exists, not_and] at hD
+    have hk : ∀ k ∈ ks, k.ids.Nodup := (List.nodup_flatMap.1 hD.2).1
+    have hopen : ∀ k ∈ ks, ((branchVal k).2 ++ [i]).Nodup := by
+      intro k hkm
+      rw [List.nodup_append]
+      refine ⟨(ih k hkm (hk k hkm)).2, by simp, ?_⟩
+      intro a ha b hb
+      simp only [List.mem_singleton] at hb
+      subst hb
+      intro hab
+      exact hD.1 k hkm (hab ▸ (bv_mem k).2 a ha)
+    rcases ks with _ | ⟨k, _ | ⟨k2, t⟩⟩
+    · simp [branchVal_node, cb_nil]
+    · have hk1 := ih k (List.mem_cons_self ..) (hk k (List.mem_cons_self ..))
+      simp only [branchVal_node, List.map_cons, List.map_nil, cb_one]
+      exact ⟨hk1.1, hopen k (List.mem_cons_self ..)⟩
+    · rw [branchVal_many]
+      refine ⟨?_, by simp⟩
+      intro b hb
+      simp only [List.mem_flatMap, List.mem_map, closeAt] at hb
+      obtain ⟨sc, ⟨k', hk', rfl⟩, hb⟩ := hb
+      simp only [List.mem_reverse, List.mem_append, List.mem_singleton] at hb
+      rcases hb with hb | rfl
+      · exact (ih k' hk' (hk k' hk')).1 b hb
+      · exact List.nodup_reverse.2 (hopen k' hk')
+
+theorem branch_nodup (r : Rose) (hD : r.ids.Nodup) (b : List Int) (hb : b ∈ branchesOf r) : b.Nodup := by
+  obtain ⟨h1, h2⟩ := bv_nodup r hD
+  simp only [branchesOf, Branches.finish] at hb
+  split at hb
+  · simp only [List.mem_cons] at hb
+    rcases hb with rfl | hb
+    · exact List.nodup_reverse.2 h2
+    · exact h1 b hb
+  · exact h1 b hb
+
+theorem good_tree (r : Rose) (pids : List Int) (h : C06.IsTree r pids) : Good pids.length (branchesOf r) := by
+  intro b hb
+  refine ⟨?_, ?_, branch_nodup r h.1.2 b hb⟩
+  · obtain ⟨top, m, last, rfl, _⟩ := branch_shape _ r h.1.1 b hb
+    simp
+  · intro x hx
+    exact (C06.isTree_mem h x).1 (branch_mem r b hb x hx)
+
+theorem mid_eq (top last : Int) (m : List Int) : mid (top :: (m ++ [last])) = m := by simp [mid]
+
+/-- an interior row of one branch is on no other branch of the tree (it has exactly one child; first nodes of branches are the root or
+furcations; every node is a non-first member of one branch only) -/
+theorem pairwise_tree (r : Rose) (pids : List Int) (h : C06.IsTree r pids) :
+    (branchesOf r).Pairwise (fun b b' => (∀ m ∈ mid b, m ∉ b') ∧ (∀ m ∈ mid b', m ∉ b)) := by
+  obtain ⟨hT, hroot⟩ := tails_nodup r h.1.2
+  have key : ∀ b ∈ branchesOf r, ∀ b' ∈ branchesOf r, List.Disjoint b.tail b'.tail → ∀ m ∈ mid b, m ∉ b' := by
+    intro b hb b' hb' hd m hm hmb'
+    obtain ⟨top, mi, last, rfl, _, hmid, _⟩ := branch_shape _ r h.1.1 b hb
+    obtain ⟨top', mi', last', rfl, htop', _, _⟩ := branch_shape _ r h.1.1 b' hb'
+    rw [mid_eq] at hm
+    have hmt : m ∈ (top :: (mi ++ [last])).tail := by simp [hm]
+    rcases List.mem_cons.1 hmb' with rfl | hmt'
+    · rcases htop' with rfl | h2
+      · exact hroot (List.mem_flatMap.2 ⟨_, hb, hmt⟩)
+      · have := hmid m hm; omega
+    · exact hd hmt hmt'
+  refine ((List.nodup_flatMap.1 hT).2).imp_of_mem ?_
+  intro b b' hb hb' hd
+  exact ⟨key b hb b' hb' hd, key b' hb' b hb (fun a h1 h2 => hd h2 h1)⟩
+
+/-- **`TreeSmoother.__call__` as translated, on every well-formed tree** (`C06.IsTree`: any shape / depth / size), three coordinate columns of
+the tree's length, every window `np.ones(k)`, `k ≥ 1`, every fuel `≥ 2 n + 1`: the generated function does not raise and returns columns
+* of the same length (node count; ids, parents, radii are not touched: the generated function does not even take them apart from the topology);
+* in which the rows of EVERY branch of `branchesOf r` (= the generated `get_branches`) are `convSmooth` of the ORIGINAL rows of that branch
+  (`= conv_smooth` generated from `BranchConvSmoother`, `C16.generated_smooth_eq_model`) — although the loop smooths the CURRENT rows, in
+  branch order, and writes a furcation once per branch it ends or starts: every such write stores the value the row already has (`stepCol_frame`);
+* in which every row that is not strictly inside a branch (root, furcations, tips) keeps its coordinates. -/
+theorem generated_smooth_tree (r : Rose) (pids : List Int) (h : C06.IsTree r pids) (xs ys zs : List Rat) (k F : Nat) (hk : 1 ≤ k)
+    (hx : xs.length = pids.length) (hy : ys.length = pids.length) (hz : zs.length = pids.length) :
+    ∃ xs' ys' zs', smooth_tree ratFld (2 * r.size + F + 1) (Sub.rangeI pids.length) pids xs ys zs (List.replicate k 1)
+        = some (xs', ys', zs', ()) ∧
+      xs' = (branchesOf r).foldl (stepCol k) xs ∧ ys' = (branchesOf r).foldl (stepCol k) ys ∧ zs' = (branchesOf r).foldl (stepCol k) zs ∧
+      xs'.length = pids.length ∧ ys'.length = pids.length ∧ zs'.length = pids.length ∧
+      (∀ b ∈ branchesOf r, gather xs' b = convSmooth (gather xs b) k ∧ gather ys' b = convSmooth (gather ys b) k ∧
+        gather zs' b = convSmooth (gather zs b) k) ∧
+      (∀ j : Nat, (∀ b ∈ branchesOf r, ∀ m ∈ mid b, m.toNat ≠ j) →
+        xs'.getD j 0 = xs.getD j 0 ∧ ys'.getD j 0 = ys.getD j 0 ∧ zs'.getD j 0 = zs.getD j 0) := by
+  have hg := good_tree r pids h
+  have hp := pairwise_tree r pids h
+  refine ⟨_, _, _, smooth_tree_eq k hk _ _ pids xs ys zs (branchesOf r) (generated_getBranches_eq _ pids r h.1 h.2.2.1 F)
+    (by omega) (by omega) (fun b hb => ⟨(hg b hb).1, hx ▸ (hg b hb).2.1⟩), rfl, rfl, rfl, by simpa using hx, by simpa using hy, by simpa using hz,
+    fun b hb => ⟨foldl_gather k _ _ xs hx hg hp b hb, foldl_gather k _ _ ys hy hg hp b hb, foldl_gather k _ _ zs hz hg hp b hb⟩,
+    fun j hj => ⟨foldl_frame k _ _ xs hx hg j hj, foldl_frame k _ _ ys hy hg j hj, foldl_frame k _ _ zs hz hg j hj⟩⟩
+
+/-- **end points of every branch keep their coordinates** (`generated_smooth_endpoints_count` on every iteration): read off the per-branch statement -/
+theorem generated_smooth_tree_endpoints (r : Rose) (pids : List Int) (h : C06.IsTree r pids) (xs : List Rat) (k : Nat)
+    (hx : xs.length = pids.length) (b : List Int) (hb : b ∈ branchesOf r) (p : Nat) (hp : p < b.length) (hend : p = 0 ∨ p + 1 = b.length) :
+    ((branchesOf r).foldl (stepCol k) xs).getD (b[p]).toNat 0 = xs.getD (b[p]).toNat 0 := by
+  have h1 := gather_getElem ((branchesOf r).foldl (stepCol k) xs) b p hp
+  have h2 := gather_getElem xs b p hp
+  rw [← h1, ← h2]
+  simp only [foldl_gather k _ _ xs hx (good_tree r pids h) (pairwise_tree r pids h) b hb]
+  exact convSmooth_ends _ k p (by simpa using hp) (by simpa using hend)
+
+/-- non-vacuity (kernel-evaluated): the tree `0 ← 1 ← 2 ← {3 ← 4, 5}` (branches `[0,1,2]`, `[2,3,4]`, `[2,5]`), window 3: rows 1 and 3 move to the
+mean of their neighbourhood, the root, the furcation 2 (written three times) and the tips 4, 5 stay -/
+example : smooth_tree ratFld 13 [0, 1, 2, 3, 4, 5] [-1, 0, 1, 2, 3, 2] [0, 3, 3, 9, 6, 1] [0, 0, 0, 0, 0, 0] [1, 1, 1, 1, 1, 1] [1, 1, 1]
+    = some ([0, 2, 3, 6, 6, 1], [0, 0, 0, 0, 0, 0], [1, 1, 1, 1, 1, 1], ()) := by decide +kernel
+
+example : C06.IsTree (.node 0 [.node 1 [.node 2 [.node 3 [.node 4 []], .node 5 []]]]) [-1, 0, 1, 2, 3, 2] := by
+  refine ⟨⟨?_, by decide⟩, by decide, rfl, rfl⟩
+  simp [Agrees, AgreesL, tableKids, Rose.id, Sub.rangeI, List.range, List.range.loop]
+
 end C16Tree2
